@@ -41,6 +41,10 @@ def nroutes(spec):
     return {'nd': 3, 'arr': 8, 'P': 4, 'S': 4, 'D': 4, 'V': 2, 'ev': 2, 'mesh': 3, 'fset': 3, 'dict': 3, 'fdict': 4, 'fmset': 3, 'tuple': 2, 'list': 2, 'method': 2, 'system': 2, 'tf': 2, 'fn': 1}.get(t, 1)
 
 
+def has_fn(spec):
+    return '"fn"' in json.dumps(spec)
+
+
 def _mod(m):
     from . import c17_a, c17_b
     return c17_a if m[0] == 'a' else c17_b
@@ -48,8 +52,8 @@ def _mod(m):
 
 def build(spec, route=0):
     if route >= 100:
-        if spec[0] == 'fn':
-            return build(spec, route - 100)   # compiled functions are not picklable (and need not be)
+        if has_fn(spec):
+            return build(spec, route - 100)   # compiled functions are not picklable (and need not be), nor is anything that holds one
         return pickle.loads(pickle.dumps(build(spec, route - 100)))
     from nutils import types
     t = spec[0]
@@ -805,7 +809,7 @@ def run_history(case):
             if order:
                 hid = order[op[1] % len(order)]
                 si, v = handles[hid]
-                if pool[si][0] == 'fn':
+                if has_fn(pool[si]):
                     continue
                 try:
                     w = pickle.loads(pickle.dumps(v))
@@ -918,7 +922,7 @@ for s in pool:
             row.append(type(e).__name__ + ':' + str(e)[:80])
     try:
         import base64
-        row.append('P:-' if s[0] == 'fn' else 'P:' + base64.b64encode(pickle.dumps(c17.build(s, 0))).decode())
+        row.append('P:-' if c17.has_fn(s) else 'P:' + base64.b64encode(pickle.dumps(c17.build(s, 0))).decode())
     except Exception as e:
         row.append('P:!' + type(e).__name__ + ':' + str(e)[:80])
     out.append(row)
